@@ -99,8 +99,11 @@ def execute(case):
     if k == "distance":
         x, y = np.array(case["x"], dtype=np.float64), np.array(case["y"], dtype=np.float64)
         out = []
-        for name in ("hellinger", "total_variation", "kantorovich1d", "jensen_shannon_divergence", "symmetric_kl_divergence"):
-            out.append(float(getattr(D, name)(x.copy(), y.copy())))
+        if x.sum() > 0 and y.sum() > 0:
+            for name in ("hellinger", "total_variation", "kantorovich1d", "jensen_shannon_divergence", "symmetric_kl_divergence"):
+                out.append(float(getattr(D, name)(x.copy(), y.copy())))
+        else:
+            out.append(float(D.hellinger(x.copy(), y.copy())))      # defined for zero vectors (returns 0 / 1)
         ix, iy = np.nonzero(x)[0].astype(np.int32), np.nonzero(y)[0].astype(np.int32)
         dx, dy = x[ix].astype(np.float32), y[iy].astype(np.float32)
         for name in ("sparse_hellinger", "sparse_total_variation", "sparse_jensen_shannon_divergence", "sparse_symmetric_kl_divergence"):
@@ -179,7 +182,8 @@ def catalogue(tier):
                 yield {"k": "registry", "spec": name, "cfg": ci, "batch": b}
     # distances on a small grid incl. single-entry vectors and disjoint supports
     G = [0.0, 1.0, 3.0, 1e-3]
-    vs = [v for d in ((1, 2) if tier == "quick" else (1, 2, 3)) for v in itertools.product(G, repeat=d) if sum(v) > 0]
+    # all-zero vectors are included: their sparse encodings are EMPTY index/data arrays (all-zero matrix rows)
+    vs = [v for d in ((1, 2) if tier == "quick" else (1, 2, 3)) for v in itertools.product(G, repeat=d)]
     for x in vs:
         for y in vs:
             if len(x) == len(y):
